@@ -54,6 +54,7 @@ class _Oracle:
 
     def __init__(self, T, none_at=None):
         self.T, self.batches, self.none_at = T, [], none_at
+        self.hook_calls = 0
 
     def __call__(self, I):
         I = np.array(I)
@@ -89,16 +90,57 @@ def _ill_conditioned(T, n, rho, thr=1e-3):
     return None
 
 
-def _setup(n, rho, r0, tseed, yseed):
+def _setup(n, rho, r0, tseed, yseed, opt=None):
+    """opt (all optional): scale (factor on the target), yscale (factor on every core of the start), order ('F' /
+    'V': Fortran-ordered / non-contiguous cores of the start), ret='int' (integer-valued target returned as an
+    integer ndarray); r0 may be an int or a rank profile (list of length d+1)."""
+    opt = opt or {}
     T = gen.dense(gen.tt(n, rho, tseed, 'gauss'))
-    Y0 = gen.tt(n, r0, yseed, 'gauss')
+    if opt.get('ret') == 'int':
+        T = np.rint(4.0 * T).astype(np.int64)
+    if opt.get('scale'):
+        T = T * float(opt['scale'])
+    Y0 = gen.tt(n, r0, yseed, 'gauss', order=opt.get('order') or 'C')
+    if opt.get('yscale'):
+        Y0 = [G * float(opt['yscale']) for G in Y0]
     return T, Y0
 
 
-def _vld(T, n, seed, cnt=12):
+def _xkw(opt, f=None):
+    """Keyword arguments of cross named in opt: tau, tau0, k0, and func='hook' (the documented replacement of the
+    inner request function; here a wrapper that counts the requests and delegates to the library's own one)."""
+    import sys
+    opt = opt or {}
+    kw = {key: opt[key] for key in ('tau', 'tau0', 'k0') if key in opt}
+    if opt.get('func') == 'hook':
+        inner = sys.modules['teneva.cross']._func
+
+        def hook(f_, Ig, Ir, Ic, info, cache=None):
+            if f is not None:
+                f.hook_calls += 1
+            return inner(f_, Ig, Ir, Ic, info, cache)
+        kw['func'] = hook
+    return kw
+
+
+def _cross(opt, f, Y0, **kw):
+    """teneva.cross; with opt['log'] the progress lines are captured and returned as second value."""
+    if (opt or {}).get('log'):
+        import contextlib, io
+        out = io.StringIO()
+        with contextlib.redirect_stdout(out):
+            Y = teneva.cross(f, Y0, log=True, **kw)
+        return Y, out.getvalue()
+    return teneva.cross(f, Y0, **kw), None
+
+
+def _vld(T, n, seed, cnt=12, opt=None):
     g = gen.rng('C05vld', seed)
     I = np.stack([g.integers(0, k, size=cnt) for k in n], axis=1)
-    return I, T[tuple(I.T)]
+    y = T[tuple(I.T)]
+    if (opt or {}).get('vform') == 'list':
+        return I.tolist(), [float(v) for v in y]
+    return I, y
 
 
 def _own_erank(Y):
@@ -120,19 +162,26 @@ def _same_float(a, b):
 
 
 @clause('C05.cross.reproduce', funcs=FUNCS + ('maxvol.maxvol', 'maxvol.maxvol_rect'))
-def reproduce(n, rho, r0, dr_min, dr_max, nswp, tseed, yseed, cache, vld):
-    """Working ranks reach rho -> same shape, equal to the target up to rounding (rel. 1e-8)."""
-    T, Y0 = _setup(n, rho, r0, tseed, yseed)
+def reproduce(n, rho, r0, dr_min, dr_max, nswp, tseed, yseed, cache, vld, opt=None):
+    """Working ranks reach rho -> same shape, equal to the target up to rounding (rel. 1e-8).
+    opt: see _setup / _xkw / _cross (target / start scale, memory layout, tau / tau0 / k0, func hook, log, vform)."""
+    T, Y0 = _setup(n, rho, r0, tseed, yseed, opt)
     bad = _ill_conditioned(T, n, rho)
     if bad:
         return SKIP(bad)
     f = _Oracle(T)
     info = {}
-    kw = {}
+    kw = _xkw(opt, f)
     if vld:
-        kw['I_vld'], kw['y_vld'] = _vld(T, n, tseed)
-    Y = teneva.cross(f, Y0, nswp=nswp, dr_min=dr_min, dr_max=dr_max, info=info,
+        kw['I_vld'], kw['y_vld'] = _vld(T, n, tseed, opt=opt)
+    Y, text = _cross(opt, f, Y0, nswp=nswp, dr_min=dr_min, dr_max=dr_max, info=info,
                      cache={} if cache else None, m_cache_scale=HUGE, **kw)
+    if 'func' in kw and f.hook_calls != 2 * len(n) * nswp:
+        return FAIL(f'the func replacement was called {f.hook_calls} times, {2 * len(n) * nswp} requests expected')
+    if text is not None:
+        lines = [ln for ln in text.splitlines() if ln.strip()]
+        if len(lines) != nswp + 1 or not lines[0].startswith('# pre') or 'stop: nswp' not in lines[-1]:
+            return FAIL(f'log=True printed {len(lines)} lines for {nswp} sweeps (+ pre-iteration): {lines[-1:]}')
     msg = gen.wf(Y, n)
     if msg:
         return FAIL('result not well-formed / wrong shape: ' + msg)
@@ -157,27 +206,27 @@ def _prefill(T, n, cnt, seed):
     return pre
 
 
-def _cached_pair(n, rho, r0, dr_min, dr_max, nswp, tseed, yseed, prefill, vld):
-    T, Y0 = _setup(n, rho, r0, tseed, yseed)
-    kw = {}
-    if vld:
-        kw['I_vld'], kw['y_vld'] = _vld(T, n, tseed)
+def _cached_pair(n, rho, r0, dr_min, dr_max, nswp, tseed, yseed, prefill, vld, opt=None):
+    T, Y0 = _setup(n, rho, r0, tseed, yseed, opt)
     fa, ia = _Oracle(T), {}
-    Ya = teneva.cross(fa, Y0, nswp=nswp, dr_min=dr_min, dr_max=dr_max, info=ia, cache=None,
-                      m_cache_scale=HUGE, **kw)
+    kw = _xkw(opt, fa)
+    if vld:
+        kw['I_vld'], kw['y_vld'] = _vld(T, n, tseed, opt=opt)
+    Ya, _ = _cross(opt, fa, Y0, nswp=nswp, dr_min=dr_min, dr_max=dr_max, info=ia, cache=None,
+                   m_cache_scale=HUGE, **kw)
     pre = _prefill(T, n, prefill, tseed)
     cache = dict(pre)
     fb, ib = _Oracle(T), {}
-    Yb = teneva.cross(fb, Y0, nswp=nswp, dr_min=dr_min, dr_max=dr_max, info=ib, cache=cache,
-                      m_cache_scale=HUGE, **kw)
+    Yb, _ = _cross(opt, fb, Y0, nswp=nswp, dr_min=dr_min, dr_max=dr_max, info=ib, cache=cache,
+                   m_cache_scale=HUGE, **kw)
     return T, (Ya, ia, fa), (Yb, ib, fb), pre, cache
 
 
 @clause('C05.cross.cache_transparent', funcs=FUNCS)
-def cache_transparent(n, rho, r0, dr_min, dr_max, nswp, tseed, yseed, prefill, vld):
+def cache_transparent(n, rho, r0, dr_min, dr_max, nswp, tseed, yseed, prefill, vld, opt=None):
     """cache=None vs cache=dict under identical arguments: identical cores, sweeps; evaluations never grow."""
     T, (Ya, ia, fa), (Yb, ib, fb), pre, cache = _cached_pair(n, rho, r0, dr_min, dr_max, nswp, tseed, yseed,
-                                                             prefill, vld)
+                                                             prefill, vld, opt)
     if ib['stop'] == 'conv':
         return SKIP("outside the quantifier: the cache-specific stop 'conv' fired (everything requested was pre-filled)")
     if len(Ya) != len(Yb) or any(A.shape != B.shape for A, B in zip(Ya, Yb)):
@@ -204,9 +253,9 @@ def cache_transparent(n, rho, r0, dr_min, dr_max, nswp, tseed, yseed, prefill, v
 
 
 @clause('C05.cross.cache_content', funcs=('cross.cross', 'cross._func_eval'))
-def cache_content(n, rho, r0, dr_min, dr_max, nswp, tseed, yseed, prefill, vld):
+def cache_content(n, rho, r0, dr_min, dr_max, nswp, tseed, yseed, prefill, vld, opt=None):
     """The cache dictionary ends up holding exactly (pre-filled +) evaluated index -> value pairs."""
-    T, _, (Yb, ib, fb), pre, cache = _cached_pair(n, rho, r0, dr_min, dr_max, nswp, tseed, yseed, prefill, vld)
+    T, _, (Yb, ib, fb), pre, cache = _cached_pair(n, rho, r0, dr_min, dr_max, nswp, tseed, yseed, prefill, vld, opt)
     d = len(n)
     evaluated = [tuple(int(x) for x in row) for b in fb.batches for row in b]
     if len(set(evaluated)) != len(evaluated):
@@ -237,15 +286,15 @@ def cache_content(n, rho, r0, dr_min, dr_max, nswp, tseed, yseed, prefill, vld):
 
 
 @clause('C05.cross.info_reports', funcs=('cross.cross', 'utils._info_appr'))
-def info_reports(n, rho, r0, dr_min, dr_max, nswp, tseed, yseed, cache, vld, end, frac):
+def info_reports(n, rho, r0, dr_min, dr_max, nswp, tseed, yseed, cache, vld, end, frac, opt=None):
     """info['r'], info['e_vld'], info['e'] are those of the returned tensor, however the run ends.
     end: 'nswp' | 'm' | 'func' | 'cb' | 'e' | 'e_vld';  frac in [0, 1) places the interruption."""
-    T, Y0 = _setup(n, rho, r0, tseed, yseed)
-    kw = dict(dr_min=dr_min, dr_max=dr_max, m_cache_scale=HUGE)
+    T, Y0 = _setup(n, rho, r0, tseed, yseed, opt)
+    kw = dict(dr_min=dr_min, dr_max=dr_max, m_cache_scale=HUGE, **_xkw(opt))
     I_vld = y_vld = None
     if vld or end == 'e_vld':
         I_vld, y_vld = _vld(T, n, tseed)
-        kw['I_vld'], kw['y_vld'] = I_vld, y_vld
+        kw['I_vld'], kw['y_vld'] = _vld(T, n, tseed, opt=opt)
     # reference run to know the unconstrained number of rows / calls
     ref, iref = _Oracle(T), {}
     teneva.cross(ref, Y0, nswp=nswp, info=iref, cache={} if cache else None, **kw)
@@ -299,7 +348,7 @@ def info_reports(n, rho, r0, dr_min, dr_max, nswp, tseed, yseed, cache, vld, end
         if done > 0:
             Yold = seen[-1][0]
         else:
-            Yold = teneva.cross(_Oracle(T), Y0, nswp=0, dr_min=dr_min, dr_max=dr_max)
+            Yold = teneva.cross(_Oracle(T), Y0, nswp=0, dr_min=dr_min, dr_max=dr_max, **_xkw(opt))
     else:
         Yold = seen[-1][1]
         if any(not np.array_equal(A, B) for A, B in zip(seen[-1][0], Y)):
@@ -384,3 +433,72 @@ def cases(tier, seed):
                     yield 'C05.cross.info_reports', dict(
                         n=n, rho=rho, r0=r0, dr_min=a, dr_max=b, nswp=nswp, tseed=int(g.integers(1 << 30)),
                         yseed=int(g.integers(1 << 30)), cache=bool(k % 2), vld=bool((k // 2) % 2), end=end, frac=frac)
+    # ------------------------------------------------------------ parameter / regime coverage (own generator)
+    g2 = gen.rng('C05cov', seed)
+
+    def sd():
+        return int(g2.integers(1 << 30))
+
+    opts = [{'tau': 1.0}, {'tau': 1.01}, {'tau': 3.0}, {'tau': 1e6}, {'tau0': 1.0}, {'tau0': 2.0}, {'tau0': 10.0},
+            {'k0': 1}, {'k0': 2}, {'k0': 1, 'tau0': 1.0, 'tau': 1.0}, {'scale': 1e-8}, {'scale': 1e-4}, {'scale': 1e4},
+            {'scale': 1e8}, {'yscale': 1e-8}, {'yscale': 1e8}, {'order': 'F'}, {'order': 'V'}, {'vform': 'list'},
+            {'func': 'hook'}, {'log': True}]
+    if big:
+        opts += [{'scale': 1e-30}, {'scale': 1e30}, {'scale': 1e8, 'yscale': 1e-8}, {'tau': 1.5, 'tau0': 1.5, 'k0': 3},
+                 {'func': 'hook', 'log': True, 'vform': 'list', 'order': 'V'}]
+    cov = [[2, 2], [6, 5], [1, 4], [3, 3, 3], [2, 1, 3], [3, 4, 2, 3]]
+    wide = [[2] * 6, [30, 3], [3, 40], [12, 2, 12]] + ([[2] * 9, [64, 2], [2, 3, 1, 3, 2], [5, 70]] if big else [])
+
+    def grow(rho, r0, a, b):
+        return (r0, a, b, max(0, -(-(rho - r0) // (2 * a))) + 2)
+
+    k = 0
+    # every option with a rotating (shape, rank, mode); thorough: every shape
+    for j, o in enumerate(opts):
+        for q, n in enumerate((SHAPES + wide) if big else cov):
+            for rep in range(reps):
+                k += 1
+                rho = 1 + k % 3
+                modes = _modes(rho) + [grow(rho, 1, 1, 3), grow(rho, 1, 2, 3)]
+                r0, a, b, nswp = modes[(j + q + rep) % len(modes)]
+                yield 'C05.cross.reproduce', dict(n=n, rho=rho, r0=r0, dr_min=a, dr_max=b, nswp=nswp, tseed=sd(),
+                                                  yseed=sd(), cache=bool(k % 2), vld=bool((k // 2) % 2) or 'vform' in o,
+                                                  opt=o)
+    # many modes / large modes; growth by 2..3 per half-sweep with room to spare (also on nearly square unfoldings,
+    # where the limits are clipped); starts far above the target rank; ragged rank profiles of the start
+    for n in wide + cov:
+        for rho in ((1, 2, 3, 4) if big else (2, 3)):
+            d = len(n)
+            prof = [1] + [rho + (q % 3) for q in range(d - 1)] + [1]
+            for (r0, a, b, nswp) in (_modes(rho)[:1] + [grow(rho, 1, 1, 1), grow(rho, 1, 1, 3), grow(rho, 1, 2, 3),
+                                                      grow(rho, 1, 3, 5), (rho + 3, 0, 0, 3), (prof, 0, 0, 3)]):
+                for rep in range(reps):
+                    k += 1
+                    if not big and n in cov and (a, b) in ((0, 0), (1, 1)) and isinstance(r0, int) and r0 <= rho:
+                        continue                    # (already in the systematic part above)
+                    yield 'C05.cross.reproduce', dict(n=n, rho=rho, r0=r0, dr_min=a, dr_max=b, nswp=nswp, tseed=sd(),
+                                                      yseed=sd(), cache=bool(k % 2), vld=bool((k // 2) % 2))
+    # cache clauses under non-default options (incl. an integer-valued objective)
+    copts = [{'tau': 3.0}, {'tau0': 2.0}, {'k0': 1}, {'scale': 1e-8}, {'scale': 1e8}, {'ret': 'int'}, {'order': 'V'},
+             {'func': 'hook'}, {'vform': 'list'}] + ([{'tau': 1.0}, {'log': True}, {'yscale': 1e8}, {'scale': 1e30}] if big else [])
+    for j, o in enumerate(copts):
+        for q, n in enumerate((SHAPES + wide[:4]) if big else ([6, 5], [2, 1, 3], [3, 4, 2, 3])):
+            for (rho, r0, a, b, nswp) in ((2, 2, 0, 0, 3), (8, 1, 1, 2, 3)) + (((3, 1, 2, 3, 2), (8, 3, 0, 2, 2)) if big else ()):
+                if o.get('ret') == 'int' and rho < 8:
+                    rho = 8                         # (rounding destroys the low rank; transparency does not need it)
+                base = dict(n=n, rho=rho, r0=r0, dr_min=a, dr_max=b, nswp=nswp, tseed=sd(), yseed=sd(), opt=o)
+                pre = (0, 6)[(j + q) % 2]
+                yield 'C05.cross.cache_transparent', dict(base, prefill=pre, vld='vform' in o)
+                yield 'C05.cross.cache_content', dict(base, prefill=pre, vld='vform' in o)
+    # info clause under non-default options
+    iopts = [{'tau0': 2.0, 'k0': 1}, {'scale': 1e-8}, {'scale': 1e8}, {'vform': 'list'}, {'order': 'F'}] + \
+        ([{'tau': 3.0}, {'yscale': 1e-8}, {'func': 'hook'}, {'scale': 1e30}] if big else [])
+    k = 0
+    for o in iopts:
+        for n in ((SHAPES[:8] + wide[:2]) if big else ([6, 5], [2, 1, 3])):
+            for rho, (r0, a, b, nswp) in ((2, (2, 0, 0, 3)), (8, (1, 1, 2, 3))):
+                for end, frac in (ends if big else ends[::2]):
+                    k += 1
+                    yield 'C05.cross.info_reports', dict(
+                        n=n, rho=rho, r0=r0, dr_min=a, dr_max=b, nswp=nswp, tseed=sd(), yseed=sd(), cache=bool(k % 2),
+                        vld=bool((k // 2) % 2) or 'vform' in o, end=end, frac=frac, opt=o)
